@@ -607,6 +607,8 @@ type Backends struct {
 	shards         []map[string]*Backend
 	changedShards  map[int]bool
 	DefaultBackend *Backend
+	// ID of the default backend of the last committed state
+	defaultBackendID string
 }
 
 // BackendID ...
